@@ -3,23 +3,27 @@ import glob, json, os
 import vlib
 
 TARGETS = ["Base/Corr.vo", "C18/Model.vo", "C18/Corr.vo", "C18/TableModel.vo", "C18/TableCorr.vo", "C18/ConfigModel.vo", "C18/ConfigCorr.vo", "C18/ProofsTable.vo", "C18/ProofsConfig.vo", "C18/Spec.vo", "C18/SpecTest.vo", "C18/ProofsBase.vo",
-           "C18/ProofsScalar.vo", "C18/ProofsSparse.vo", "C18/ProofsDense.vo", "C18/ProofsSparseMat.vo", "C18/ProofsInst.vo", "C18/Props.vo"]
+           "C18/ProofsScalar.vo", "C18/ProofsSparse.vo", "C18/ProofsDense.vo", "C18/ProofsSparseMat.vo", "C18/ProofsInst.vo", "C18/ProofsTable2.vo", "C18/ProofsConfig2.vo", "C18/Props.vo"]
 PROPS = ["C18/Props.v"]
 STEMS = ["cases", "tcases", "ccases"]
 CORPUS = os.path.join(vlib.ROOT, "corpus/C18/corpus.jsonl")
+# findings retired by fix: commits must be removed from BOTH /verif/known_findings.json and this file (b3C18 did so for the six JSON ones)
 PROPOSED = os.path.join(vlib.ROOT, "corpus/C18/known_findings_proposed.json")
-PARTIAL = ("Theorems are about the hand-written models coq/C18/Model.v (JSON writers/readers of scalars, dense and sparse vectors and "
-           "matrices, all views), TableModel.v (table Export/Import incl. isGzip) and ConfigModel.v (ConfigDistribution export/import "
-           "of the 20 registered scalar families, mixtures, transforms, scalar iid). Number formatting/parsing (strconv shortest round "
-           "trip, ParseFloat/ParseInt), bytes<->document (encoding/json), bytes<->lines of fields (bufio, strings.Fields, compress/gzip) "
-           "are trusted hypotheses / outside the model and mirrored by the harness. Table part: the dense-matrix round trip is proved up "
-           "to the stored row-major list (positional reading not stated: _partial); sparse-matrix tables have model, exact tie and "
-           "refutations but no universally quantified round-trip theorem; sparse-vector theorem needs a token round trip for all values "
-           "(not the Int instances). Config part: per-family and closure theorems (leaf, wrapper, mixture) are proved, their assembly by "
-           "induction over the tree is not stated; log/exp/normalisation are abstract (hypotheses flog(fexp x)=x, norm lw = lw), so the "
-           "tie compares categorical/binomial/mixture parameters by count in Coq and with a tolerance in the oracle; vector/matrix "
-           "registries other than 'vector:scalar iid' (HMMs, normal, ...) are not modelled.")
-
+PARTIAL = ("Theorems are about the hand-written models coq/C18/Model.v (JSON writers/readers of scalars incl. constant scalars, dense and "
+           "sparse vectors and matrices, all views; readers as validated at HEAD after da67985 b9c30c8 500dcc2 d37b260 6dfd87a a328708), "
+           "TableModel.v (table Export/Import incl. isGzip) and ConfigModel.v (ConfigDistribution export/import of the 20 registered scalar "
+           "families, mixtures, transforms, scalar iid). Number formatting/parsing (strconv shortest round trip, ParseFloat/ParseInt), "
+           "bytes<->document (encoding/json), bytes<->lines of fields (bufio, strings.Fields, compress/gzip) are trusted hypotheses / "
+           "outside the model and mirrored by the harness; memory is not modelled (a Real dense matrix document with huge valid "
+           "dimensions allocates its scratch vectors). JSON part: round trips and reader safety (accepted => well-formed; never a "
+           "panic) are proved for every value / every document; open: sparse-matrix SLICE writer (F-JSON-SPSLICE, refuted). Table part: "
+           "dense-matrix round trip positional for every non-empty wf view, sparse-matrix round trip for every whole wf matrix "
+           "(slices: F-TABLE-SPSLICE); table READERS are unvalidated at HEAD (F-TABLE-* refutations); the sparse-vector/matrix "
+           "theorems need a token round trip for all values (not the Int instances: F-TABLE-INT). Config part: import(export d) = d "
+           "proved by induction over the tree for every nesting of mixture / log transform / translation / top-level iid over the 15 "
+           "plain families + categorical (binomial excluded: F-CONFIG-BINOMIAL); log/exp/normalisation are abstract (hypotheses "
+           "flog(fexp x)=x, norm lw = lw), so the tie compares categorical/binomial/mixture parameters by count in Coq and with a "
+           "tolerance in the oracle; vector/matrix registries other than 'vector:scalar iid' (HMMs, normal, ...) are not modelled.")
 
 def findings():
     fs = list(vlib.known_findings("C18"))
